@@ -41,6 +41,13 @@ impl LogicalExtensionCodec for MemCodec {
         buf.extend_from_slice(table_ref.table().as_bytes());
         Ok(())
     }
+    // file formats (COPY TO): the stock codec
+    fn try_decode_file_format(&self, buf: &[u8], ctx: &TaskContext) -> DFResult<Arc<dyn datafusion::datasource::file_format::FileFormatFactory>> {
+        datafusion_proto::logical_plan::DefaultLogicalExtensionCodec {}.try_decode_file_format(buf, ctx)
+    }
+    fn try_encode_file_format(&self, buf: &mut Vec<u8>, node: Arc<dyn datafusion::datasource::file_format::FileFormatFactory>) -> DFResult<()> {
+        datafusion_proto::logical_plan::DefaultLogicalExtensionCodec {}.try_encode_file_format(buf, node)
+    }
 }
 
 fn fresh(case: &Value, opts: &ExecOpts) -> Result<(SessionContext, MemCodec), String> {
@@ -54,6 +61,71 @@ fn fresh(case: &Value, opts: &ExecOpts) -> Result<(SessionContext, MemCodec), St
         codec.tables.insert(name.to_string(), mt);
     }
     Ok((ctx, codec))
+}
+
+/// fresh session + the case's `setup` statements (external tables, views, settings)
+async fn fresh_s(case: &Value, opts: &ExecOpts) -> Result<(SessionContext, MemCodec), String> {
+    let (ctx, codec) = fresh(case, opts)?;
+    if let Some(st) = case["setup"].as_array() {
+        for s in st {
+            let s = s.as_str().unwrap();
+            let df = ctx.sql(s).await.map_err(|e| format!("setup `{s}`: {e}"))?;
+            df.collect().await.map_err(|e| format!("setup `{s}`: {e}"))?;
+        }
+    }
+    Ok((ctx, codec))
+}
+
+/// plans that SQL text cannot express are built through the Rust API
+async fn api_plan(ctx: &SessionContext, name: &str) -> DFResult<LogicalPlan> {
+    use datafusion::common::{NullEquality, UnnestOptions};
+    use datafusion::functions_nested::expr_fn::make_array;
+    use datafusion::logical_expr::{JoinType, LogicalPlanBuilder, Partitioning as LP};
+    let t1 = ctx.table("t1").await?;
+    let t2 = ctx.table("t2").await?;
+    let plan = match name {
+        "repartition_rr" => LogicalPlanBuilder::from(t1.logical_plan().clone()).repartition(LP::RoundRobinBatch(3))?.build()?,
+        "repartition_hash" => LogicalPlanBuilder::from(t1.logical_plan().clone()).repartition(LP::Hash(vec![col("c1"), col("c2") + lit(1i64)], 2))?.build()?,
+        "repartition_distribute" => LogicalPlanBuilder::from(t1.logical_plan().clone()).repartition(LP::DistributeBy(vec![col("c3")]))?.build()?,
+        "sort_fetch" => LogicalPlanBuilder::from(t1.logical_plan().clone())
+            .sort_with_limit(vec![col("c1").sort(false, false), col("c2").sort(true, true), col("c3").sort(true, false)], Some(2))?.build()?,
+        "unnest_preserve_nulls" | "unnest_drop_nulls" => {
+            let arr = when(col("c1").is_null(), lit(datafusion::common::ScalarValue::Null)).otherwise(make_array(vec![col("c1"), col("c2")]))?;
+            t2.select(vec![arr.alias("a"), col("c2")])?
+                .unnest_columns_with_options(&["a"], UnnestOptions::new().with_preserve_nulls(name == "unnest_preserve_nulls"))?
+                .logical_plan().clone()
+        }
+        "join_null_equal" | "join_null_unequal" => {
+            let ne = if name == "join_null_equal" { NullEquality::NullEqualsNull } else { NullEquality::NullEqualsNothing };
+            LogicalPlanBuilder::from(t1.logical_plan().clone())
+                .join_detailed(t2.select(vec![col("c1").alias("k"), col("c2").alias("v")])?.logical_plan().clone(), JoinType::Left,
+                    (vec![datafusion::common::Column::from_name("c1")], vec![datafusion::common::Column::from_name("k")]), Some(col("c2").lt_eq(col("v") + lit(1i64))), ne)?
+                .build()?
+        }
+        "join_right_semi" | "join_right_anti" | "join_left_mark" => {
+            let jt = match name { "join_right_semi" => JoinType::RightSemi, "join_right_anti" => JoinType::RightAnti, _ => JoinType::LeftMark };
+            LogicalPlanBuilder::from(t1.logical_plan().clone())
+                .join_detailed(t2.select(vec![col("c1").alias("k"), col("c2").alias("v")])?.logical_plan().clone(), jt,
+                    (vec![datafusion::common::Column::from_name("c1")], vec![datafusion::common::Column::from_name("k")]), None, NullEquality::NullEqualsNothing)?
+                .build()?
+        }
+        "alias_metadata" => {
+            let mut md = std::collections::HashMap::new();
+            md.insert("k".to_string(), "v".to_string());
+            t1.select(vec![col("c1").alias_with_metadata("m", Some(md.into())), col("c3")])?.logical_plan().clone()
+        }
+        "distinct_on_api" => t1.distinct_on(vec![col("c1")], vec![col("c1"), col("c2")], Some(vec![col("c1").sort(true, false), col("c2").sort(false, true)]))?.logical_plan().clone(),
+        other => return Err(plan_datafusion_err!("unknown api plan {other}")),
+    };
+    Ok(plan)
+}
+
+async fn logical_of(ctx: &SessionContext, case: &Value) -> DFResult<LogicalPlan> {
+    if let Some(name) = case["api"].as_str() {
+        api_plan(ctx, name).await
+    } else {
+        ctx.state().create_logical_plan(case["sql"].as_str().unwrap()).await
+    }
 }
 
 fn types_of(schema: &arrow::datatypes::Schema) -> Vec<String> {
@@ -123,15 +195,14 @@ fn guard<T>(f: impl FnOnce() -> DFResult<T>) -> Result<T, String> {
 
 // ------------------------------------------------------------------------------------------ C35
 async fn c35_case(case: &Value, opts: &ExecOpts, stats: &mut HashMap<String, u64>) -> Value {
-    let (ctx, codec) = match fresh(case, opts) {
+    let (ctx, codec) = match fresh_s(case, opts).await {
         Ok(x) => x,
         Err(e) => return json!({"id": case["id"], "tool_err": e}),
     };
-    let df = match ctx.sql(case["sql"].as_str().unwrap()).await {
+    let unopt = match logical_of(&ctx, case).await {
         Ok(d) => d,
         Err(e) => return json!({"id": case["id"], "plan_err": e.to_string()}),
     };
-    let unopt = df.logical_plan().clone();
     let opt = match ctx.state().optimize(&unopt) {
         Ok(p) => p,
         Err(e) => return json!({"id": case["id"], "plan_err": e.to_string()}),
@@ -149,7 +220,7 @@ async fn c35_case(case: &Value, opts: &ExecOpts, stats: &mut HashMap<String, u64
             }
         };
         v["bytes"] = json!(bytes.len());
-        let (ctx2, codec2) = fresh(case, opts).unwrap();
+        let (ctx2, codec2) = fresh_s(case, opts).await.unwrap();
         let dec = match guard(|| datafusion_proto::bytes::logical_plan_from_bytes_with_extension_codec(&bytes, &ctx2.task_ctx(), &codec2)) {
             Ok(p) => p,
             Err(e) => {
@@ -185,7 +256,7 @@ async fn c35_case(case: &Value, opts: &ExecOpts, stats: &mut HashMap<String, u64
     all_exprs(&unopt, &mut exprs);
     all_exprs(&opt, &mut exprs);
     let mut expr_fail = Vec::new();
-    let (ctx3, codec3) = fresh(case, opts).unwrap();
+    let (ctx3, codec3) = fresh_s(case, opts).await.unwrap();
     for e in &exprs {
         *stats.entry("exprs".into()).or_default() += 1;
         let p = match guard(|| datafusion_proto::logical_plan::to_proto::serialize_expr(e, &codec).map_err(|x| plan_datafusion_err!("{x}"))) {
@@ -218,15 +289,15 @@ fn node_names(plan: &Arc<dyn ExecutionPlan>, out: &mut Vec<String>) {
 }
 
 async fn c36_case(case: &Value, opts: &ExecOpts) -> Value {
-    let (ctx, _) = match fresh(case, opts) {
+    let (ctx, _) = match fresh_s(case, opts).await {
         Ok(x) => x,
         Err(e) => return json!({"id": case["id"], "tool_err": e}),
     };
-    let df = match ctx.sql(case["sql"].as_str().unwrap()).await {
+    let lp = match logical_of(&ctx, case).await {
         Ok(d) => d,
         Err(e) => return json!({"id": case["id"], "plan_err": e.to_string()}),
     };
-    let plan = match df.create_physical_plan().await {
+    let plan = match ctx.state().create_physical_plan(&lp).await {
         Ok(p) => p,
         Err(e) => return json!({"id": case["id"], "plan_err": e.to_string()}),
     };
@@ -241,7 +312,7 @@ async fn c36_case(case: &Value, opts: &ExecOpts) -> Value {
         Err(e) => v["enc_err"] = json!(e),
         Ok(bytes) => {
             v["bytes"] = json!(bytes.len());
-            let (ctx2, _) = fresh(case, opts).unwrap();
+            let (ctx2, _) = fresh_s(case, opts).await.unwrap();
             match guard(|| datafusion_proto::bytes::physical_plan_from_bytes(&bytes, &ctx2.task_ctx())) {
                 Err(e) => v["dec_err"] = json!(e),
                 Ok(dec) => {
@@ -273,15 +344,14 @@ async fn c36_case(case: &Value, opts: &ExecOpts) -> Value {
 // ------------------------------------------------------------------------------------------ C37
 async fn c37_case(case: &Value, opts: &ExecOpts) -> Value {
     use datafusion_substrait::logical_plan::{consumer::from_substrait_plan, producer::to_substrait_plan};
-    let (ctx, _) = match fresh(case, opts) {
+    let (ctx, _) = match fresh_s(case, opts).await {
         Ok(x) => x,
         Err(e) => return json!({"id": case["id"], "tool_err": e}),
     };
-    let df = match ctx.sql(case["sql"].as_str().unwrap()).await {
+    let unopt = match logical_of(&ctx, case).await {
         Ok(d) => d,
         Err(e) => return json!({"id": case["id"], "plan_err": e.to_string()}),
     };
-    let unopt = df.logical_plan().clone();
     let opt = match ctx.state().optimize(&unopt) {
         Ok(p) => p,
         Err(e) => return json!({"id": case["id"], "plan_err": e.to_string()}),
@@ -299,7 +369,7 @@ async fn c37_case(case: &Value, opts: &ExecOpts) -> Value {
                 continue;
             }
         };
-        let (ctx2, _) = fresh(case, opts).unwrap();
+        let (ctx2, _) = fresh_s(case, opts).await.unwrap();
         let st2 = ctx2.state();
         let dec = match from_substrait_plan(&st2, &sp).await {
             Ok(p) => p,
@@ -320,15 +390,14 @@ async fn c37_case(case: &Value, opts: &ExecOpts) -> Value {
 async fn c38_case(case: &Value, opts: &ExecOpts) -> Value {
     use datafusion::sql::sqlparser::{dialect as sd, parser::Parser};
     use datafusion::sql::unparser::{Unparser, dialect as ud, plan_to_sql};
-    let (ctx, _) = match fresh(case, opts) {
+    let (ctx, _) = match fresh_s(case, opts).await {
         Ok(x) => x,
         Err(e) => return json!({"id": case["id"], "tool_err": e}),
     };
-    let df = match ctx.sql(case["sql"].as_str().unwrap()).await {
+    let unopt = match logical_of(&ctx, case).await {
         Ok(d) => d,
         Err(e) => return json!({"id": case["id"], "plan_err": e.to_string()}),
     };
-    let unopt = df.logical_plan().clone();
     let opt = match ctx.state().optimize(&unopt) {
         Ok(p) => p,
         Err(e) => return json!({"id": case["id"], "plan_err": e.to_string()}),
@@ -346,7 +415,7 @@ async fn c38_case(case: &Value, opts: &ExecOpts) -> Value {
             }
         };
         v["sql"] = json!(text);
-        let (ctx2, _) = fresh(case, opts).unwrap();
+        let (ctx2, _) = fresh_s(case, opts).await.unwrap();
         match ctx2.sql(&text).await {
             Err(e) => v["dec_err"] = json!(e.to_string()),
             Ok(df2) => {
